@@ -174,7 +174,9 @@ class IH5Node:
         If absolute, returns the path back unchanged.
         """
         pref = self._gpath if self._gpath != "/" else ""
-        return path if path and path[0] == "/" else f"{pref}/{path}"
+        ret = path if path and path[0] == "/" else f"{pref}/{path}"
+        # trailing slashes do not change which node is meant ("/g/" is "/g")
+        return ret.rstrip("/") or "/"
 
     def _inspect_path(self, path):  # pragma: no cover
         """Print the path node of all containers where the path is contained in."""
